@@ -129,7 +129,7 @@ def rle_records(out: hlib.RecWriter, rng: random.Random) -> dict:
         code = bytearray()
         for _ in range(rng.randint(1, 12)):
             if rng.random() < 0.5:
-                code += bytes([0, rng.choice([0, 1, 2, 3, 255, rng.randrange(256)])])
+                code += bytes([0, rng.choice([1, 1, 2, 3, 255, rng.randrange(1, 256)])])
             else:
                 code += bytes(rng.choice([1, 3, 255, rng.randrange(1, 256)]) for _ in range(rng.randint(1, 4)))
         start = rng.choice([0, 0, 2, 4]) if len(code) > 6 else 0
@@ -273,24 +273,47 @@ def vis_records(out: hlib.RecWriter, rng: random.Random) -> None:
                     quiet_save(bsp, path)
                     back = BSP(path).visibility
                 except Exception:   # noqa: BLE001
-                    out.write({'k': 'vis', 'rows': [runs_of(r) for r in rows], 'count': -1, 'offsets': [], 'coded': [],
-                               'indep': 'diff', 'back': 'diff', 'lumplen': 0, 'sig': sig})
+                    out.write({'k': 'vis', 'rows': [runs_of(r) for r in rows], 'count': -1, 'offsets': [], 'at': [],
+                               'rewrite': 'diff', 'indep': 'diff', 'back': 'diff', 'lumplen': 0, 'sig': sig})
                     continue
                 with open(path, 'rb') as f:
                     lump = S.read_lumps(f.read())['VISIBILITY'][1]
                 count = struct.unpack_from('<i', lump, 0)[0]
                 offs = list(struct.unpack_from(f'<{2 * count}i', lump, 4))
-                cuts = sorted(set(offs)) + [len(lump)]
-                coded = []
+                # at[k]: the bytes from offset k as far as a decoder of the format consumes them for one row
+                # (no assumption about where the next block starts, or whether blocks are shared)
+                at = []
                 indep = []
                 for o in offs:
-                    end = min(c for c in cuts if c > o) if o < len(lump) else o
-                    coded.append(runs_of(lump[o:end]))
-                    indep.append(S.unrle_row(lump, o, rowlen).hex() if rowlen else '')
+                    got = bytearray()
+                    i = o
+                    try:
+                        while len(got) < rowlen:
+                            if lump[i]:
+                                got.append(lump[i])
+                                i += 1
+                            else:
+                                got += bytes(lump[i + 1])
+                                i += 2
+                    except IndexError:
+                        i = len(lump)
+                    at.append(runs_of(lump[o:i]))
+                    indep.append(bytes(got[:rowlen]).hex())
+                # write(read(write(v))) = write(v): the value read back, written again, gives the same lump
+                rewrite = 'diff'
+                try:
+                    b2 = base_bsp(layout)
+                    b2.visibility = back
+                    path2 = os.path.join(TMP, 'vis2.bsp')
+                    quiet_save(b2, path2)
+                    with open(path2, 'rb') as f:
+                        rewrite = 'same' if S.read_lumps(f.read())['VISIBILITY'][1] == lump else 'diff'
+                except Exception:   # noqa: BLE001
+                    pass
                 same = (back is not None and [bytes(r) for r in back.potentially_visible] == pvs
                         and [bytes(r) for r in back.potentially_audible] == pas)
-                out.write({'k': 'vis', 'rows': [runs_of(r) for r in rows], 'count': count, 'offsets': offs, 'coded': coded,
-                           'indep': 'same' if indep == [r.hex() for r in rows] else 'diff', 'back': 'same' if same else 'diff',
+                out.write({'k': 'vis', 'rows': [runs_of(r) for r in rows], 'count': count, 'offsets': offs, 'at': at,
+                           'rewrite': rewrite, 'indep': 'same' if indep == [r.hex() for r in rows] else 'diff', 'back': 'same' if same else 'diff',
                            'lumplen': len(lump), 'sig': sig})
 
 
@@ -690,7 +713,9 @@ def write_graph(out: hlib.RecWriter, w: dict, layout: str, src: str) -> None:
     obs = run_world(w, layout)
     orig_none = any(w['one'][x].get('orig') == '' for x in w['kind'] if w['kind'][x] in ('face', 'hdrface')
                     and (x in w['tables']['faces'] or x in w['tables']['hdr_faces']))
-    out.write({'k': 'graph', 'w': w, 'obs': obs, 'waterSelf': water_self(),
+    none_refs = any(w['one'][x].get('orig') == '' or w['one'][x].get('texinfo') == ''
+                    for x in w['kind'] if w['kind'][x] in ('face', 'hdrface'))
+    out.write({'k': 'graph', 'w': w, 'obs': obs, 'waterSelf': water_self(), 'noneRefs': none_refs,
                'sig': {'kind': 'graph', 'action': 'save', 'layout': layout, 'src': src, 'origNone': orig_none,
                        'error': obs['error']}})
 
